@@ -3,7 +3,7 @@
 
   DONE here: `_quantify` / `BDD.quantify` / `exist` / `forall` and the quantifier aliases of
   `apply` (so `apply` with capacity now covers EVERY operator: `applyCapQ`); `cofactor` / `let` with
-  Boolean values; `compose` / `let` with functions; `rename` / `let` with names / `copy_bdd`.
+  Boolean values; `compose` / `let` with functions; `rename` / `let` with names / `copy_bdd`; `cube`.
   For each: the twin over an arbitrary `find_or_add` (and nested `ite`) is the model when
   instantiated with the capacity-free ones; the three-outcome specification holds over ANY
   `find_or_add` / `ite` with three-outcome specifications (documented result | aborted by a
@@ -17,6 +17,7 @@
 import DDProofs.Capacity3Quantify
 import DDProofs.Capacity3Cofactor
 import DDProofs.Capacity3Rename
+import DDProofs.Capacity3Cube
 import DDProps.C17Capacity2
 open Std
 
@@ -179,5 +180,24 @@ example : DynTotal capSt.ext capM (composeCap 6 2 [("a", 3)] capM) :=
   (C17_compose_full_dyn 6 capSt.ext capM capM_dynInv).1 _ _
 example : DynTotal capSt.ext capM (renameCap 6 3 [("b", "a")] capM) :=
   (C17_rename_full_dyn 6 capSt.ext capM capM_dynInv).1 _ _
+
+/-! ## `cube` -/
+
+theorem C17_cube_layer_is_model : cubeG var apply = cube := cubeG_model
+
+/-- GENERIC: `cube` over ANY nested `var` / `apply` that are total on arbitrary arguments -/
+theorem C17_cube_over (varX : String → M Int) (applyX : String → Int → Option Int → Option Int → M Int)
+    (hv : VarNestedTot varX) (ha : ApplyNestedTot applyX) (m : Mgr) (hI : Inv m) (hc : m.ctx = true)
+    (dvars : List (String × Bool)) : TotE m (cubeBodyG varX applyX dvars m) :=
+  cubeBodyG_totE varX applyX hv ha m hI hc dvars
+
+/-- C17 `BDD.cube` with `max_nodes = cap`: ANY names, whatever it returns or raises (refused after
+some literals were already conjoined included): `DynTotal` -/
+theorem C17_cube_full_dyn (cap : Nat) (ext : Nat → Nat) (m : Mgr) (hD : DynInv ext m)
+    (dvars : List (String × Bool)) : DynTotal ext m (cubeCap cap dvars m) :=
+  cubeCap_total_dyn cap ext m hD dvars
+
+example : DynTotal capSt.ext capM (cubeCap 6 [("a", true), ("b", false)] capM) :=
+  C17_cube_full_dyn 6 capSt.ext capM capM_dynInv _
 
 end DD
